@@ -269,7 +269,7 @@ func c03Run(c *core.Ctx) *core.Result {
 		r.Count("prior_dirs_announced_as_symlink_or_fifo", 1)
 	}
 	// one mutation
-	mut := core.Pick(R, []string{"none", "none", "dotdot", "dot", "empty", "updown", "dotdotx", "abs", "unclean", "dup", "order", "childofnondir", "noparent", "hl-unknown", "hl-later", "hl-escape", "hl-nonfile", "data-unsolicited", "data-afterterm", "backslash", "newline", "hugesize", "fin-early", "stat-after-end", "err-packet", "req-from-sender", "hl-via-dest-symlink", "hl-via-dest-symlink", "tmp-name-planted"})
+	mut := core.Pick(R, []string{"none", "none", "dotdot", "dot", "empty", "updown", "dotdotx", "abs", "unclean", "dup", "order", "childofnondir", "noparent", "hl-unknown", "hl-later", "hl-escape", "hl-nonfile", "data-unsolicited", "data-afterterm", "backslash", "newline", "hugesize", "fin-early", "stat-after-end", "err-packet", "req-from-sender", "hl-via-dest-symlink", "hl-via-dest-symlink", "tmp-name-planted", "random-script", "random-script"})
 	k := 0
 	if len(stats) > 0 {
 		k = R.Intn(len(stats) + 1)
@@ -383,6 +383,36 @@ func c03Run(c *core.Ctx) *core.Result {
 		st := fileStat("zzz-huge")
 		st.Size = 1 << 60
 		stats = append(stats, st)
+	case "random-script":
+		// a fully random STAT sequence over well- and ill-formed paths, random
+		// types and link names (the specification decides where it goes wrong)
+		alpha := []string{"a", "a/a", "a/b", "a/b/c", "b", "b/a", "c", "a-b", "ab", "d", "d/d", "..", ".", "", "../x", "a/../..", "/abs", outside + "/pwn", "a//b", "a/", "./a", "a/..", "..a", "..a/x", up + rc + "/outside/pwn", ".tmp.1", "zz"}
+		n := R.Range(3, 25)
+		stats = nil
+		for i := 0; i < n; i++ {
+			p := core.Pick(R, alpha)
+			var st *types.Stat
+			switch R.Intn(6) {
+			case 0, 1:
+				st = dirStat(p)
+			case 2:
+				st = &types.Stat{Path: p, Mode: uint32(os.ModeSymlink | 0777), Linkname: core.Pick(R, targets)}
+			case 3:
+				st = hlStat(p)
+				st.Linkname = core.Pick(R, append(alpha, "../sibling", outside+"/file"))
+			default:
+				st = fileStat(p)
+			}
+			stats = append(stats, st)
+		}
+		if R.P(2, 3) {
+			// mostly sorted, so that long valid prefixes occur
+			for i := 1; i < len(stats); i++ {
+				for j := i; j > 0 && tree.CmpPath(stats[j-1].Path, stats[j].Path) > 0; j-- {
+					stats[j-1], stats[j] = stats[j], stats[j-1]
+				}
+			}
+		}
 	case "tmp-name-planted":
 		// legal entries whose names look like the writer's temporary names
 		// (guessable if they were a counter or derived from the path): symlinks
